@@ -76,6 +76,13 @@ impl Rng {
         }
     }
     pub fn digest(&mut self) -> Digest {
+        // special digests: `Digest::default()` (all zero) is what unfilled slots, fillers and "vacant" markers hold, so
+        // a real node that happens to carry it must not be treated specially; likewise the all-(p-1) digest
+        match self.below(24) {
+            0 | 1 => return Digest::default(),
+            2 => return Digest::new([BFieldElement::new(P - 1); 5]),
+            _ => {}
+        }
         Digest::new([self.bfe(), self.bfe(), self.bfe(), self.bfe(), self.bfe()])
     }
     /// uniformly random digest (cheap; no boundary bias)
